@@ -269,6 +269,7 @@ def sec_classic(chk):
                     smp = curv.draw_sample(from_inverse=True)
                 finally:
                     ift.random.pop_sseq()
+                ExactCG.discharge(chk, lab)
                 const, C = noise.coefficient_matrix(flat(smp))
                 _eq(chk, f"{lab}: a sample of the inverse curvature has zero mean", const, [0] * ns)
                 _eq(chk, f"{lab}: its covariance times (R^T N^-1 R + 1) == identity", list((C * C.T) * Dinv), list(sp.eye(ns)))
